@@ -13,5 +13,5 @@ open Emboss.Fmt
 #print axioms C11_sanity_agrees
 #print axioms C11_sanity_reports_first_difference
 #print axioms C11_sanity_count_differs
-#print axioms Emboss.Fmt.C11_format_factors_blank
-#print axioms Emboss.Fmt.C11_idempotent_partial
+#print axioms C11_format_factors_blank
+#print axioms C11_idempotent_partial
